@@ -534,7 +534,20 @@ func (m *monState) checkShutdownReturn(si *StepInfo, res *OpResult, pre, post *S
 	}
 	if w.mem != nil && !lastSaveFailed {
 		if d := diffStore(w.mem.last(), post); d != "" {
-			run.violate("C11", "r2", "step %d: Shutdown returned but the last successfully saved snapshot differs from the reported state: %s", si.N, d)
+			// Which history is it? If the snapshot written last was built before another one that was written earlier,
+			// two saves overlapped and completed in inverted order (rule r2i, its own rule so that the known finding
+			// F12 cannot hide any other difference between store and reported state).
+			lastIx, newer := w.mem.completed[len(w.mem.completed)-1], -1
+			for _, k := range w.mem.completed {
+				if k > lastIx {
+					newer = k
+				}
+			}
+			if newer >= 0 && diffStore(w.mem.handed[newer].Data, post) == "" {
+				run.violate("C11", "r2i", "step %d: Shutdown returned but the store holds an older snapshot than the reported state: two saves overlapped and completed in inverted order (snapshot #%d, built at step %d, was written after snapshot #%d, built at step %d, which matches the reported state, and the state changed in between): %s", si.N, lastIx, w.mem.handed[lastIx].Step, newer, w.mem.handed[newer].Step, d)
+			} else {
+				run.violate("C11", "r2", "step %d: Shutdown returned but the last successfully saved snapshot differs from the reported state: %s", si.N, d)
+			}
 		}
 	}
 	// r5 / r6
